@@ -25,8 +25,8 @@ def gen_exec_cases(tier, rng, want):
             if quick and (k + stop) % 3 != 0:
                 continue
             cases.append(A.ExecCase(tc.d, 0, tc.H, tc.B, tc.mode, tc.nums, stop, [63]))
-    nrand = 220 if quick else 4000
-    maxN = 200 if quick else 1200
+    nrand = 220 if quick else 1500
+    maxN = 200 if quick else 800
     Hmax = {1: 8, 2: 6, 3: 5, 4: 4} if quick else {1: 10, 2: 7, 3: 6, 4: 4}
     for tc in T.gen_random(rng, nrand, maxN, Hmax=Hmax):
         stop = rng.choice([2, 2, 2, 0, 1, 3, tc.H - 1, tc.H, -1])
@@ -52,7 +52,7 @@ def run_algo_property(pid, prop_file, tier, seed, want, level="proof"):
             hc = 0
         groups = []   # C08 / C12 families: lists of case positions that must agree with each other
         if "c08" in want:
-            nfam = 40 if tier == "quick" else 350
+            nfam = 40 if tier == "quick" else 150
             for tc in T.gen_random(rng, nfam, 120 if tier == "quick" else 800, Hmax={1: 7, 2: 5, 3: 5, 4: 3}):
                 nl = len(set(tc.leaf_indices()))
                 Bs = sorted(set([1, 2, 3, 5, 7, max(1, nl // 2), nl, nl + 1, 10000000]))
@@ -66,7 +66,7 @@ def run_algo_property(pid, prop_file, tier, seed, want, level="proof"):
                             fam.append(len(cases)); cases.append(A.ExecCase(tc.d, 0, tc.H, B, mode, tc.nums, 2, [63], rb=True))
                 groups.append(("grouping", fam))
         if "c12" in want:
-            nfam = 30 if tier == "quick" else 300
+            nfam = 30 if tier == "quick" else 120
             for tc in T.gen_random(rng, nfam, 100 if tier == "quick" else 500, Hmax={1: 7, 2: 5, 3: 5, 4: 3}):
                 stop = rng.choice([2, 2, 0, 1, 3])
                 fam = []
